@@ -31,7 +31,7 @@ func TestMain(m *testing.M) {
 
 var bias = ls.Bias{
 	Weights:   map[ls.OpKind]int{ls.OpPush: 6, ls.OpSpawnPush: 8, ls.OpOpen: 3, ls.OpSettle: 4, ls.OpAdvance: 3, ls.OpStatus: 1, ls.OpPollers: 0, ls.OpFreeze: 2, ls.OpThaw: 2, ls.OpCancel: 1},
-	TaskKinds: []ls.TaskKind{ls.TInstant, ls.TInstant, ls.TInstant, ls.TGated, ls.TGated, ls.TSleep, ls.TSleep, ls.TPanic, ls.TCancel},
+	TaskKinds: []ls.TaskKind{ls.TInstant, ls.TInstant, ls.TInstant, ls.TGated, ls.TGated, ls.TSleep, ls.TSleep, ls.TPanic, ls.TCancel, ls.TNil},
 	Deadline:  10,
 	MaxOps:    60,
 	Cancel:    true,
